@@ -14,6 +14,7 @@ from harness import c20_util as U
 from translate import c20_formats as T
 from translate import c20_keytables as KT
 from translate import c20_quant as TQ
+from translate import c20_vmtblocks as TV
 
 MANIFEST = dict(
     technique='Rocq proof (byte-level codec round trips: Hammer command sequences, the scenes.image container driven by a configuration '
@@ -148,7 +149,7 @@ def tie_families(tie: str) -> set[str]:
                      ('ScenesImg_gen', ('scenes-image',)), ('scene summary', ('scenes-image',)), ('soundscript', ('sndscript',)),
                      ('VMT', ('vmt',)), ('binary choreo', ('vcd-binary',)), ('ChoreoBin_gen', ('vcd-binary',)),
                      ('TextFields_gen', ('sndscript', 'vmt', 'vcd-text')),
-                     ('KeyTables_gen', ('smd', 'pcf', 'scenes-image', 'cmdseq')), ('QuantSites_gen', ('vcd-binary',)),
+                     ('KeyTables_gen', ('smd', 'pcf', 'scenes-image', 'cmdseq')), ('QuantSites_gen', ('vcd-binary',)), ('VmtBlocks_gen', ('vmt',)),
                      ('quantisation', ('vcd-binary',))):
         if word in tie:
             fams.update(fs)
@@ -971,6 +972,55 @@ def corr_vmt_quote(ck: Ck) -> None:
         ck.extra['vmt_quote_disagreement'] = {'string': qcases[b1[0]][0], 'impl': qcases[b1[0]][1]} if b1 else \
             {'name': lcases[b2[0]][0], 'value': lcases[b2[0]][1], 'impl_line': lcases[b2[0]][2]} if b2 else \
             {'shader': fcases[b3[0]][0], 'params': fcases[b3[0]][1], 'impl_file': fcases[b3[0]][2]}
+
+
+def corr_vmt_blocks(ck: Ck):
+    """`VmtBlocks.vmt_file_b` over the generated block configuration and quoting table vs the whole file Material.export writes, for
+    generated materials WITH sub-blocks and proxies (nested blocks, empty blocks, names and values with spaces / braces / backslashes)."""
+    cases = []
+    for _ in range(bud(ck, ('vmt',), 40, 400)):
+        spec = U.vmt_gen(ck.rng)
+        if not (spec['blocks'] or spec['proxies']) and ck.rng.random() < 0.7:
+            spec['blocks'] = [{'name': U.rstr(ck.rng, U.VMT_ALPHA, 1, 6), 'value': [U._kv_gen(ck.rng, 2, U.VMT_ALPHA, U.VMT_ALPHA) for _k in range(ck.rng.choice([0, 1, 3]))]}]
+        try:
+            m = U.limited(U.vmt_build, spec)
+            params = [(v.name, v.value) for v in m._params.values()]
+            text = U.limited(U.vmt_write, m)
+        except Exception:
+            params, text = [tuple(x) for x in spec['params']], None
+        cases.append((spec, params, text))
+        ck.count('vmt_block_file_cases')
+
+        def depth(b) -> int:
+            return 1 + max([depth(c) for c in b['value']], default=0) if isinstance(b['value'], list) else 0
+        ck.hist('vmt_block_files', f"blocks={min(len(spec['blocks']), 2)} proxies={min(len(spec['proxies']), 2)} depth={max([depth(b) for b in spec['blocks'] + spec['proxies']], default=0)}")
+        if text is not None and (spec['blocks'] or spec['proxies']):
+            ck.seen(('vmtblocks', json.dumps(spec, sort_keys=True)))
+
+    def cs(t: str) -> str:
+        return nl(map(ord, t))
+
+    def tree(b: dict) -> str:
+        if isinstance(b['value'], list):
+            return f"(KNode {cs(b['name'])} {coq_list(tree(c) for c in b['value'])})"
+        return f"(KLeaf {cs(b['name'])} {cs(b['value'])})"
+    e = ('bad_idx (fun c : ((list N * list (list N * list N)) * (list kvt * list kvt)) * option (list N) => onl_eqb (Some (vmt_file_b TextFieldsProofs.ex_escfg '
+         'vmt_bcfg vmt_nq (fst (fst (fst c))) (snd (fst (fst c))) (fst (snd (fst c))) (snd (snd (fst c))))) (snd c)) 0 ' + coq_list(
+             f'((({cs(sp["shader"] or "s")}, {coq_list(f"({cs(a)}, {cs(b)})" for a, b in ps)}), ({coq_list(tree(b) for b in sp["blocks"])}, '
+             f'{coq_list(tree(b) for b in sp["proxies"])})), {"None" if tx is None else "Some " + cs(tx)})' for sp, ps, tx in cases))
+    [vals] = yield [(IMP_TXT + ['SV.Fmt.TextFieldsProofs', 'SV.Fmt.VmtBlocks', 'SV.Gen.VmtBlocks_gen'], [e], 'vmtblocks', PRE)]
+    if vals is None:
+        ck.obligation('correspondence:vmt-blocks', False, 'model could not be evaluated')
+        ck.tie_broken.append('correspondence VMT blocks: model evaluation failed')
+        return
+    bad = parse_coq_N_list(vals[0])
+    ck.obligation('correspondence:vmt-blocks', not bad,
+                  f'{len(cases)} generated materials with parameters, nested sub-blocks and proxies: VmtBlocks.vmt_file_b over the generated '
+                  f'block templates / indents and quoting table vs the whole file Material.export writes: {len(bad)} disagreements')
+    if bad:
+        ck.tie_broken.append('correspondence VMT blocks (Fmt/VmtBlocks.v over Gen/VmtBlocks_gen.v vs Material.export)')
+        sp, ps, tx = cases[bad[0]]
+        ck.extra['vmt_blocks_disagreement'] = {'spec': sp, 'impl_file': tx}
 
 
 # ================================================================================================ binary choreo correspondence
@@ -1804,9 +1854,11 @@ def run(ck: Ck) -> None:
     ok5 = ck.translate('ChoreoBin_gen', T.translate_choreo_bin)
     ok6 = ck.translate('KeyTables_gen', KT.translate_keytables)
     ok7 = ck.translate('QuantSites_gen', TQ.translate_quant)
+    ok8 = ck.translate('VmtBlocks_gen', TV.translate_vmt_blocks)
     built = ck.build(['Props/C20.vo'] + (['Gen/CmdSeqFmt_gen.vo'] if ok1 else []) + (['Gen/SmdTpl_gen.vo'] if ok2 else [])
                      + (['Gen/ScenesImg_gen.vo'] if ok3 else []) + (['Gen/TextFields_gen.vo'] if ok4 else [])
-                     + (['Gen/ChoreoBin_gen.vo'] if ok5 else []) + (['Gen/KeyTables_gen.vo'] if ok6 else []) + (['Gen/QuantSites_gen.vo'] if ok7 else []))
+                     + (['Gen/ChoreoBin_gen.vo'] if ok5 else []) + (['Gen/KeyTables_gen.vo'] if ok6 else []) + (['Gen/QuantSites_gen.vo'] if ok7 else [])
+                     + (['Gen/VmtBlocks_gen.vo'] if ok8 else []))
     lap('translate+build')
     finish_theorems = theorems_async(ck, 'Props/C20.v') if built else None
     # the correspondences are generators: they build their cases (Python, consuming ck.rng in a fixed order), yield the Coq jobs, and
@@ -1937,12 +1989,26 @@ def run(ck: Ck) -> None:
             'vcd_binary_quantisation_factor_same_on_both_sides': 'cq_factors_agree',
             'vcd_binary_quantisation_census_nonempty': 'cq_census_size_ok',
         })
+    if built and ok8:
+        # fully qualified: Fmt.VmtBlocks is loaded through the Gen module but not imported (its short names stay out of this group)
+        m_imps += ['SV.Gen.VmtBlocks_gen']
+        m_what.append('vmt.py _write_block / the blocks and proxies part of Material.export')
+        B, GB = 'SV.Fmt.VmtBlocks.', 'SV.Gen.VmtBlocks_gen.'
+        m_obs.update({
+            'vmt_block_templates_are_self_delimiting_items_and_every_indent_is_whitespace': f'{B}bcfg_okb {GB}vmt_bcfg',
+            'vmt_block_templates_are_quoted_name_brace_children_brace_and_quoted_name_quoted_value': f'{B}bcfg_shape_okb {GB}vmt_bcfg',
+            'vmt_block_fields_are_the_name_and_the_value_of_the_block_and_the_file_ends_with_the_closing_brace':
+                f'{GB}vmt_block_open_writes_the_name_of_the_block && {GB}vmt_block_leaf_writes_the_name_then_the_value && '
+                f'{GB}vmt_block_close_writes_no_value && {GB}vmt_file_ends_with_the_closing_brace_line',
+        })
     if m_obs:
         tie(ck.instance_obligations(list(dict.fromkeys(m_imps)), m_obs, name='tpl'), ' / '.join(m_what))
     lap('instance-smd+text+choreo-bin')
     if built and ok4:
         launch(corr_snd_stacks(ck))
         launch(corr_vmt_quote(ck))
+    if built and ok4 and ok8:
+        launch(corr_vmt_blocks(ck))
     if built and ok4:
         snd_line_census(ck)
     lap('gen-snd-stacks+vmt-quote+line-census')
@@ -1962,7 +2028,7 @@ def run(ck: Ck) -> None:
         c = 'si_gen_cfg'
         prop_imps: list[str] = []
         prop_obs: dict[str, str] = {}
-        if all((ok1, ok2, ok4, ok5, ok6, ok7)):
+        if all((ok1, ok2, ok4, ok5, ok6, ok7, ok8)):
             # the single hypothesis of Props/C20.v c20_property, for the record of everything the translators regenerated in this run.
             # Fully qualified names, and the extra modules imported BEFORE the ones of this group (the Gen modules define overlapping
             # short names: the later import wins, so the expressions below keep their meaning).  It is the conjunction of booleans that
@@ -1970,9 +2036,9 @@ def run(ck: Ck) -> None:
             G = 'SV.Gen.'
             rec = (f'SV.Fmt.C20Property.mkGen {G}CmdSeqFmt_gen.gen_cfg {G}ScenesImg_gen.si_gen_cfg {G}TextFields_gen.snd_v2_guard '
                    f'{G}TextFields_gen.snd_stack_blocks {G}KeyTables_gen.kt_tables (Coq.Lists.List.map (@snd _ _) {G}QuantSites_gen.cq_sites) '
-                   f'{G}TextFields_gen.vmt_nq {G}TextFields_gen.snd_lines {G}TextFields_gen.cho_lines {G}SmdTpl_gen.smd_lines')
+                   f'{G}TextFields_gen.vmt_nq {G}TextFields_gen.snd_lines {G}TextFields_gen.cho_lines {G}SmdTpl_gen.smd_lines {G}VmtBlocks_gen.vmt_bcfg')
             prop_imps = ['SV.Fmt.C20Property', 'SV.Gen.CmdSeqFmt_gen', 'SV.Gen.TextFields_gen', 'SV.Gen.KeyTables_gen', 'SV.Gen.QuantSites_gen',
-                         'SV.Gen.SmdTpl_gen']
+                         'SV.Gen.SmdTpl_gen', 'SV.Gen.VmtBlocks_gen']
             prop_obs = {'c20_property_premises_hold_for_the_objects_regenerated_from_todays_source': f'SV.Fmt.C20Property.premises ({rec})'}
         ires = ck.instance_obligations(prop_imps + IMP_IMGCFG, {
             'image_magic_is_VSIF_on_both_sides': f'magic_okb {c}',
@@ -2048,6 +2114,8 @@ def run(ck: Ck) -> None:
                 ck.explain('correspondence:sndscript-line-census')
             if pre == 'vmt:':
                 ck.explain('correspondence:vmt-quoting')
+                ck.explain('correspondence:vmt-blocks')
+                ck.explain('translate:VmtBlocks_gen')
     if any(not k.endswith(':flex-animation-block') for k in keys):
         ck.explain('instance:c20_property_premises')        # a conjunction: the conjunct that fails is explained above
     if any(k.startswith('scenes-image:') for k in keys):
